@@ -587,7 +587,7 @@ package xmpp
 //@   ensures[C10] !outClosed(old(s.state)) ==> wrote == 1
 
 //@ func (*Session).Close
-//@   ensures[C10] outClosed(s.state)
+//@   ensures[C10] s.state == old(s.state) | OutputStreamClosed
 
 // Transmit entry points: nothing is handed to the encoder once the output is
 // closed, and the caller is told so.
@@ -659,3 +659,12 @@ package xmpp
 //@     assert[C10] !pending
 //@   ensures[C08,C10] e != nil
 //@   ensures[C10] outClosed(old(s.state)) ==> e == err && s.state == old(s.state)
+
+//@ func (*Session).closeInputStream
+//@   callsite foreign#*
+//@     preserves s.state
+//@   ensures[C10] s.state == old(s.state) | InputStreamClosed
+
+// Serve leaves both directions marked closed, whatever made it return.
+//@ func (*Session).Serve
+//@   ensures[C10] outClosed(s.state) && s.state & InputStreamClosed == InputStreamClosed
